@@ -134,7 +134,7 @@ func (h *harness) raceJobs() []job {
 			return g
 		}})
 	}
-	for i, n := 0, h.cfg.N(130, 2500); i < n; i++ {
+	for i, n := 0, h.cfg.N(130, 2000); i < n; i++ {
 		jobs = append(jobs, job{func(r *hx.Rand) genLayer {
 			oo := o
 			oo.wellFormed = r.Chance(1, 2)
